@@ -383,6 +383,43 @@ Proof.
   - eapply Permutation_trans; eassumption.
 Qed.
 
+(* the same for streams of full messages (multi-frame call stacks): the key is the full
+   rendered text, head line and note trail *)
+Lemma interleave_map {A B} (f : A -> B) (ls : list (list A)) r :
+  interleave ls r -> interleave (map (map f) ls) (map f r).
+Proof.
+  induction 1 as [ls H|pre x s post r _ IH].
+  - constructor. induction H as [|s l Hs _ IHl]; cbn [map]; constructor; [rewrite Hs; reflexivity|exact IHl].
+  - rewrite map_app in *. cbn [map] in *. apply il_cons. exact IH.
+Qed.
+
+Lemma merge_msgs_texts pm ed vb (streams : list (list msg)) r1 r2 st s1 out1 :
+  interleave streams r1 -> interleave streams r2 ->
+  log_run pm ed st (map (pmsg_of_msg vb) r1) = Some (s1, out1) ->
+  exists s2 out2, log_run pm ed st (map (pmsg_of_msg vb) r2) = Some (s2, out2) /\ h_nomsg s1 = h_nomsg s2
+                  /\ Permutation (map (fun m => (p_internal m, p_text m)) (filter (fun m => negb (p_internal m)) out1))
+                                 (map (fun m => (p_internal m, p_text m)) (filter (fun m => negb (p_internal m)) out2)).
+Proof.
+  intros I1 I2 H.
+  exact (merge_texts pm ed (map (map (pmsg_of_msg vb)) streams) _ _ st s1 out1
+                     (interleave_map _ _ _ I1) (interleave_map _ _ _ I2) H).
+Qed.
+
+(* two findings with the same head line and different note trails are different keys *)
+Definition trail_a : msg :=
+  mkMsg [122] 1 0 0 [] [97;46;99] false [109] [109] []
+        [mkLoc 6 12 [97;46;99] [97;46;99] [110]; mkLoc 7 18 [104;46;104] [104;46;104] []].
+Definition trail_b : msg :=
+  mkMsg [122] 1 0 0 [] [98;46;99] false [109] [109] []
+        [mkLoc 6 12 [98;46;99] [98;46;99] [110]; mkLoc 7 18 [104;46;104] [104;46;104] []].
+
+Lemma trails_both_forwarded :
+  exists s o, log_run (fun a b => str_eqb a b) false (mkH [] []) (map (pmsg_of_msg false) [trail_a; trail_b]) = Some (s, o)
+              /\ length o = 2%nat
+              /\ firstn 10 (render false trail_a) = firstn 10 (render false trail_b)
+              /\ render false trail_a <> render false trail_b.
+Proof. do 2 eexists. split; [vm_compute; reflexivity|]. split; [reflexivity|]. split; [reflexivity|discriminate]. Qed.
+
 (* the observation is needed: with an observation finer than the rendered text
    (e.g. the XML rendering, which shows file0 while the default template does
    not) the forwarded message of a duplicate pair depends on the arrival order *)
